@@ -1,5 +1,8 @@
-(* C07 - the const observers on the representation (getType, to*, ==) are functions of the value a
-   handle denotes, equal to the reference functions of VariantSpec. *)
+(* C07 - the const observers on the representation (getType, isNull, to*, ==).  VariantModel
+   transcribes them from the code (switch on the tag, union member, explicit C conversion, which
+   operand of == is converted); here they are PROVED equal to the reference coercions of
+   VariantSpec applied to the value the handle denotes.  Nothing is shared by definition: the
+   Model does not mention vtype / to_* / eq_scalar_lhs / veq. *)
 From Coq Require Import ZArith List Bool Lia Arith.
 From Common Require Import Words ListAux.
 From Variant Require Import VariantSpec VariantModel VariantProofs VariantHeap VariantRefine VariantStep VariantAbs.
@@ -8,8 +11,29 @@ Local Open Scope nat_scope.
 
 Ltac splits := repeat match goal with |- _ /\ _ => split end.
 
-(* what is left of a value when the inside of containers is not looked at *)
+(* what the accessors can see of a value: the type tag, the inline scalar or the String payload;
+   the inside of a container is not looked at (abstraction function of the proof, not of the model) *)
+Definition shallow (H : heap) (h : handle) : value :=
+  match h with
+  | HS s => VS s
+  | HB b => match lookup H b with
+            | Some (PStr s) => VStr s
+            | Some (PNode k _ _) => VNode k [] []
+            | None => VNull
+            end
+  end.
+
 Definition strip (v : value) : value := match v with VNode k _ _ => VNode k [] [] | _ => v end.
+
+(* the handle can be read: it is inline, or its block has not been released *)
+Definition readable (H : heap) (h : handle) : Prop :=
+  match h with HS _ => True | HB b => lookup H b <> None end.
+
+Lemma held_readable H R h : Inv H R -> hheld H R h -> readable H h.
+Proof.
+  intros I Hd. destruct h as [s|b]; cbn [readable]; auto.
+  destruct (held_lookup H R b I Hd) as (blk & _ & _ & LK). congruence.
+Qed.
 
 Lemma shallow_strip H R h v : Inv H R -> hheld H R h -> den H v h -> shallow H h = strip v.
 Proof.
@@ -27,67 +51,172 @@ Lemma strip_obs v :
   to_dbl (strip v) = to_dbl v /\ to_str (strip v) = to_str v /\ is_null (strip v) = is_null v.
 Proof. destruct v; cbn; splits; reflexivity. Qed.
 
-Lemma eq_scalar_strip s v : eq_scalar_lhs s (strip v) = eq_scalar_lhs s v.
+(* ---- the C conversions of the Model are the Spec's wrap / range functions ---- *)
+Lemma c_int_views z :
+  c_int I32 z = sx32 z /\ c_int U32 z = w32 z /\ c_int I64 z = sx64 z /\ c_int U64 z = w64 z.
+Proof. splits; reflexivity. Qed.
+
+Lemma c_dbl_int_in_rng t m e : c_dbl_int t (m, e) = in_rng (ity_lo t) (ity_hi t) (dbl_trunc m e).
+Proof. reflexivity. Qed.
+
+(* ---- every switch of the accessors computes the Spec's coercion of what it reads ---- *)
+Lemma switch_is_coercion H h : readable H h ->
+  m_type H h = vtype (shallow H h) /\ m_to_bool H h = to_bool (shallow H h) /\
+  m_to_int H h = to_int (shallow H h) /\ m_to_uint H h = to_uint (shallow H h) /\
+  m_to_i64 H h = to_i64 (shallow H h) /\ m_to_u64 H h = to_u64 (shallow H h) /\
+  m_to_dbl H h = to_dbl (shallow H h) /\ m_to_str H h = to_str (shallow H h) /\
+  m_is_null H h = is_null (shallow H h).
 Proof.
-  destruct (strip_obs v) as (_ & B & I & U & I6 & U6 & Dd & _ & N).
-  destruct s; cbn [eq_scalar_lhs]; congruence.
+  intro Rd. destruct h as [s|b].
+  - destruct s; splits; reflexivity.
+  - cbn [readable] in Rd.
+    unfold m_type, m_is_null, m_to_bool, m_to_int, m_to_uint, m_to_i64, m_to_u64, m_to_dbl, m_to_str, m_tag, u_str, shallow.
+    destruct (lookup H b) as [[s|k ks hs]|]; [|destruct k|contradiction]; splits; reflexivity.
 Qed.
 
-(* getType and every to* accessor: a pure function of the denoted value, the Spec's function *)
+(* getType and every to* accessor: the Spec's function of the denoted value *)
 Theorem observers_refine H R h v :
   Inv H R -> hheld H R h -> den H v h ->
   m_type H h = vtype v /\ m_to_bool H h = to_bool v /\ m_to_int H h = to_int v /\
   m_to_uint H h = to_uint v /\ m_to_i64 H h = to_i64 v /\ m_to_u64 H h = to_u64 v /\
   m_to_dbl H h = to_dbl v /\ m_to_str H h = to_str v.
 Proof.
-  intros I Hd D. unfold m_type, m_to_bool, m_to_int, m_to_uint, m_to_i64, m_to_u64, m_to_dbl, m_to_str.
-  rewrite (shallow_strip H R h v I Hd D).
-  destruct (strip_obs v) as (A & B & C & D1 & E & F & G & S & _). splits; auto.
+  intros I Hd D.
+  destruct (switch_is_coercion H h (held_readable H R h I Hd)) as (A & B & C & D1 & E & F & G & S & _).
+  rewrite (shallow_strip H R h v I Hd D) in *.
+  destruct (strip_obs v) as (A' & B' & C' & D1' & E' & F' & G' & S' & _). splits; congruence.
 Qed.
 
-(* == on the representation is the Spec's coercing equality of the two denoted values *)
+Lemma is_null_refine H R h v : Inv H R -> hheld H R h -> den H v h -> m_is_null H h = is_null v.
+Proof.
+  intros I Hd D.
+  destruct (switch_is_coercion H h (held_readable H R h I Hd)) as (_ & _ & _ & _ & _ & _ & _ & _ & N).
+  rewrite (shallow_strip H R h v I Hd D) in N. destruct (strip_obs v) as (_ & _ & _ & _ & _ & _ & _ & _ & N'). congruence.
+Qed.
+
+(* ------------------------------------------------------------------------------------------ *)
+(* operator== : the transcription refines the Spec's coercing equality                         *)
+(* ------------------------------------------------------------------------------------------ *)
+
+(* a scalar on the left: the case of the left operand's tag compares its own member with the RIGHT
+   operand converted by the accessor of the left operand's type *)
+Lemma meq_scalar_lhs H R f s b vb :
+  Inv H R -> hheld H R b -> den H vb b -> meq (S f) H (HS s) b = eq_scalar_lhs s vb.
+Proof.
+  intros I Hb Db.
+  destruct (observers_refine H R b vb I Hb Db) as (_ & B & I32 & U32 & I64 & U64 & Dd & _).
+  pose proof (is_null_refine H R b vb I Hb Db) as N.
+  destruct s; cbn [meq]; cbn [m_tag u_bool u_dbl u_int u_uint u_i64 u_u64 eq_scalar_lhs];
+    rewrite ?N, ?B, ?I32, ?U32, ?I64, ?U64, ?Dd; reflexivity.
+Qed.
+
+(* the tag of a handle denoting a value *)
+Lemma tag_den H R h v : Inv H R -> hheld H R h -> den H v h -> m_tag H h = vtype v.
+Proof. intros I Hd D. exact (proj1 (observers_refine H R h v I Hd D)). Qed.
+
+(* a container on the left, anything but the same kind of container on the right *)
+Lemma meq_node_other H f a b k ks hs :
+  u_node H a = (ks, hs) -> m_tag H a = kind_code k -> m_tag H b <> kind_code k -> meq (S f) H a b = Some false.
+Proof.
+  intros U Ta Tb. cbn [meq]. rewrite Ta.
+  assert (E : (m_tag H b =? kind_code k)%Z = false) by (apply Z.eqb_neq; exact Tb).
+  destruct k; cbn [kind_code] in *; rewrite E; reflexivity.
+Qed.
+
+
+Lemma meq_string_lhs H f a b : m_tag H a = T_string ->
+  meq (S f) H a b = if (m_tag H b =? T_string)%Z then Some (bytes_eqb (u_str H a) (u_str H b)) else meq f H b a.
+Proof. intro Ta. cbn [meq]. rewrite Ta. reflexivity. Qed.
+
+Lemma u_str_den H b blk s : nth_error H b = Some blk -> rc blk <> 0 -> pl blk = PStr s -> u_str H (HB b) = s.
+Proof. intros E L P. cbn [u_str]. rewrite (lookup_live H b blk E L), P. reflexivity. Qed.
+
+
+Lemma meq_node_same H f a b k ks hs ks' hs' :
+  m_tag H a = kind_code k -> m_tag H b = kind_code k -> u_node H a = (ks, hs) -> u_node H b = (ks', hs') ->
+  meq (S f) H a b =
+  if length hs =? length hs' then
+    (fix go (ks ks' : list bytes) (l l' : list handle) {struct l} : option bool :=
+       match l, l' with
+       | x :: xs, y :: ys =>
+           let kd := match ks, ks' with k1 :: _, k2 :: _ => negb (bytes_eqb k1 k2) | _, _ => false end in
+           if kd then Some false else
+           match meq f H x y with
+           | Some true => go (tl ks) (tl ks') xs ys
+           | r => r
+           end
+       | _, _ => Some true
+       end) ks ks' hs hs'
+  else Some false.
+Proof. intros Ta Tb Ua Ub. cbn [meq]. rewrite Ta, Tb, Ua, Ub. destruct k; reflexivity. Qed.
+
+Lemma kind_code_inj k k' : kind_code k = kind_code k' -> k = k'.
+Proof. destruct k, k'; cbn; intro E; try reflexivity; discriminate. Qed.
+
+Lemma kind_eqb_eq k k' : kind_eqb k k' = true <-> k = k'.
+Proof. destruct k, k'; cbn; split; intro E; try reflexivity; discriminate. Qed.
 Theorem meq_refines H R : Inv H R ->
-  forall va a b vb f, hheld H R a -> hheld H R b -> den H va a -> den H vb b -> hdepth H a < f ->
+  forall va a b vb f, hheld H R a -> hheld H R b -> den H va a -> den H vb b -> 2 * hdepth H a + 2 <= f ->
     meq f H a b = veq va vb.
 Proof.
   intro I. induction va as [s|s|k ks vs IH] using value_ind2; intros a b vb f Ha Hb Da Db L.
-  - cbn [den] in Da. subst a. destruct f as [|f]; [lia|]. cbn [meq veq].
-    rewrite (shallow_strip H R b vb I Hb Db). apply eq_scalar_strip.
-  - destruct Da as (ba & blk & -> & E & P). destruct f as [|f]; [lia|]. cbn [meq veq].
-    destruct (held_lookup H R ba I Ha) as (blk' & E' & L' & LK). rewrite LK.
-    assert (blk' = blk) by congruence. subst blk'. rewrite P.
-    rewrite (shallow_strip H R b vb I Hb Db). destruct vb; reflexivity.
-  - apply den_node in Da. destruct Da as (ba & blk & hs & -> & E & P & F).
-    destruct f as [|f]; [lia|]. cbn [meq veq].
-    destruct (held_lookup H R ba I Ha) as (blk' & E' & L' & LK). rewrite LK.
-    assert (blk' = blk) by congruence. subst blk'. rewrite P.
-    destruct b as [sb|bb].
-    + apply den_scalar_inv in Db. subst vb. reflexivity.
-    + destruct (held_lookup H R bb I Hb) as (blkb & Eb & Lb & LKb). rewrite LKb.
-      destruct (pl blkb) as [s'|k' ks' hs'] eqn:Pb.
-      * rewrite (den_str_inv H vb bb blkb s' Db Eb Pb). reflexivity.
-      * destruct (den_node_inv H vb bb blkb k' ks' hs' Db Eb Pb) as (vs' & -> & F').
-        destruct (kind_eqb k k'); auto.
-        rewrite (Forall2_len _ _ _ F), (Forall2_len _ _ _ F').
-        destruct (length hs =? length hs'); auto.
-        assert (CH : forall c, In c hs -> hheld H R c /\ hdepth H c < f).
-        { intros c J. split.
-          - destruct c as [s|c]; cbn [hheld]; auto. right. exists ba, blk. splits; auto. rewrite P. auto.
-          - cbn [hdepth] in L. rewrite E in L. destruct I as [W _]. destruct (W ba blk c E) as [_ Q]; [rewrite P; auto|]. lia. }
-        assert (CH' : forall c, In c hs' -> hheld H R c).
-        { intros c J. destruct c as [s|c]; cbn [hheld]; auto. right. exists bb, blkb. splits; auto. rewrite Pb. auto. }
-        clear P Pb E Eb LK LKb L Db. revert ks ks' vs' hs' F' CH'.
-        induction F as [|v c vs hs Dv F IHF]; intros ks ks' vs' hs' F' CH'.
-        -- destruct F'; reflexivity.
-        -- destruct F' as [|v' c' vs' hs' Dv' F']; [reflexivity|].
-           inversion IH as [|? ? IHv IHvs]; subst.
-           destruct (match ks, ks' with k1 :: _, k2 :: _ => negb (bytes_eqb k1 k2) | _, _ => false end); auto.
-           destruct (CH c (or_introl eq_refl)) as [Hc Lc].
-           rewrite (IHv c c' v' f Hc (CH' c' (or_introl eq_refl)) Dv Dv' Lc).
-           destruct (veq v v') as [[|]|]; auto.
-           apply IHF; auto.
-           ++ intros x J. apply CH. right; auto.
-           ++ intros x J. apply CH'. right; auto.
+  - cbn [den] in Da. subst a. destruct f as [|f]; [lia|]. apply (meq_scalar_lhs H R); auto.
+  - pose proof (tag_den H R a (VStr s) I Ha Da) as Ta. pose proof (tag_den H R b vb I Hb Db) as Tb.
+    cbn [vtype] in Ta.
+    destruct f as [|[|f]]; [lia|lia|]. rewrite (meq_string_lhs H (S f) a b Ta), Tb. cbn [veq].
+    destruct vb as [sb|s'|k' ks' vs'].
+    + replace (vtype (VS sb) =? T_string)%Z with false by (destruct sb; reflexivity).
+      cbn [den] in Db. subst b. apply (meq_scalar_lhs H R); auto.
+    + cbn [vtype]. change (10 =? T_string)%Z with true. cbv iota.
+      destruct Da as (ba & blk & -> & E & P). destruct Db as (bb & blkb & -> & Eb & Pb).
+      destruct (held_lookup H R ba I Ha) as (blk' & E' & L' & _). assert (blk' = blk) by congruence. subst blk'.
+      destruct (held_lookup H R bb I Hb) as (blk' & E'' & L'' & _). assert (blk' = blkb) by congruence. subst blk'.
+      rewrite (u_str_den H ba blk s E L' P), (u_str_den H bb blkb s' Eb L'' Pb). reflexivity.
+    + replace (vtype (VNode k' ks' vs') =? T_string)%Z with false by (destruct k'; reflexivity).
+      apply den_node in Db. destruct Db as (bb & blkb & hs' & -> & Eb & Pb & F').
+      destruct (held_lookup H R bb I Hb) as (blk' & E'' & L'' & LK). assert (blk' = blkb) by congruence. subst blk'.
+      apply (meq_node_other H f (HB bb) a k' ks' hs').
+      * cbn [u_node]. rewrite LK, Pb. reflexivity.
+      * exact Tb.
+      * rewrite Ta. destruct k'; discriminate.
+  - pose proof (tag_den H R a (VNode k ks vs) I Ha Da) as Ta. pose proof (tag_den H R b vb I Hb Db) as Tb.
+    cbn [vtype] in Ta.
+    apply den_node in Da. destruct Da as (ba & blk & hs & -> & E & P & F).
+    destruct f as [|f]; [lia|].
+    destruct (held_lookup H R ba I Ha) as (blk' & E' & L' & LK). assert (blk' = blk) by congruence. subst blk'.
+    assert (Ua : u_node H (HB ba) = (ks, hs)) by (cbn [u_node]; rewrite LK, P; reflexivity).
+    cbn [veq].
+    destruct vb as [sb|s'|k' ks' vs'].
+    + apply (meq_node_other H f (HB ba) b k ks hs Ua Ta). rewrite Tb. destruct sb, k; discriminate.
+    + apply (meq_node_other H f (HB ba) b k ks hs Ua Ta). rewrite Tb. destruct k; discriminate.
+    + cbn [vtype] in Tb. destruct (kind_eqb k k') eqn:K.
+      2:{ apply (meq_node_other H f (HB ba) b k ks hs Ua Ta). rewrite Tb. intro C. apply kind_code_inj in C.
+          subst k'. rewrite kind_eqb_refl in K. discriminate. }
+      apply kind_eqb_eq in K. subst k'.
+      apply den_node in Db. destruct Db as (bb & blkb & hs' & -> & Eb & Pb & F').
+      destruct (held_lookup H R bb I Hb) as (blk' & E'' & L'' & LKb). assert (blk' = blkb) by congruence. subst blk'.
+      assert (Ub : u_node H (HB bb) = (ks', hs')) by (cbn [u_node]; rewrite LKb, Pb; reflexivity).
+      rewrite (meq_node_same H f (HB ba) (HB bb) k ks hs ks' hs' Ta Tb Ua Ub).
+      rewrite (Forall2_len _ _ _ F), (Forall2_len _ _ _ F').
+      destruct (length hs =? length hs'); auto.
+      assert (CH : forall c, In c hs -> hheld H R c /\ 2 * hdepth H c + 2 <= f).
+      { intros c J. split.
+        - destruct c as [s|c]; cbn [hheld]; auto. right. exists ba, blk. splits; auto. rewrite P. auto.
+        - cbn [hdepth] in L. rewrite E in L. destruct I as [W _]. destruct (W ba blk c E) as [_ Q]; [rewrite P; auto|]. lia. }
+      assert (CH' : forall c, In c hs' -> hheld H R c).
+      { intros c J. destruct c as [s|c]; cbn [hheld]; auto. right. exists bb, blkb. splits; auto. rewrite Pb. auto. }
+      clear P Pb E Eb LK LKb L Ua Ub Ta Tb. revert ks ks' vs' hs' F' CH'.
+      induction F as [|v c vs hs Dv F IHF]; intros ks ks' vs' hs' F' CH'.
+      -- destruct F'; reflexivity.
+      -- destruct F' as [|v' c' vs' hs' Dv' F']; [reflexivity|].
+         inversion IH as [|? ? IHv IHvs]; subst.
+         destruct (match ks, ks' with k1 :: _, k2 :: _ => negb (bytes_eqb k1 k2) | _, _ => false end); auto.
+         destruct (CH c (or_introl eq_refl)) as [Hc Lc].
+         rewrite (IHv c c' v' f Hc (CH' c' (or_introl eq_refl)) Dv Dv' Lc).
+         destruct (veq v v') as [[|]|]; auto.
+         apply IHF; auto.
+         ++ intros x J. apply CH. right; auto.
+         ++ intros x J. apply CH'. right; auto.
 Qed.
 
 Theorem meq_top_refines H R a b va vb :
@@ -95,3 +224,4 @@ Theorem meq_top_refines H R a b va vb :
 Proof.
   intros I Ja Jb Da Db. unfold meq_top. eapply meq_refines; eauto; apply hheld_root; auto.
 Qed.
+
